@@ -331,6 +331,41 @@ fn views(out: &mut Out, rng: &mut Rng, thorough: bool) {
 				}
 			}
 		}
+		// the same elements over a hash-only backend (no element data kept): size, root, peaks and
+		// the proof of every leaf are those of the full backend
+		{
+			let mut hb = VecBackend::<Elem>::new_hash_only();
+			let mut hsize = 0u64;
+			for e in &elems {
+				let mut p = PMMR::at(&mut hb, hsize);
+				if p.push(e).is_err() {
+					out.raw(&format!("#ORACLE-FAIL C07 push on a hash-only backend failed at size {}", hsize));
+				}
+				hsize = p.size;
+			}
+			let hp = PMMR::at(&mut hb, hsize);
+			out.line(&format!("pmmr vroot {}", hsize), &root_str(hp.root()));
+			out.line(&format!("pmmr vpeaks {}", hsize), &hashes(&hp.peaks()));
+			if hsize != size {
+				out.raw(&format!("#ORACLE-FAIL C07 hash-only backend has size {} where the full backend has {}", hsize, size));
+			}
+			if let Ok(root) = hp.root() {
+				for i in 0..n {
+					if n > 24 && !rng.chance(1, 4) {
+						continue;
+					}
+					let pos = pmmr::insertion_to_pmmr_index(i);
+					match proof_line(out, &hp, hsize, pos) {
+						Some(pr) => {
+							if pr.verify(root, &elems[i as usize], pos).is_err() {
+								out.raw(&format!("#ORACLE-FAIL C07 proof from a hash-only backend for present leaf {} (size {}) does not verify", pos, hsize));
+							}
+						}
+						None => out.raw(&format!("#ORACLE-FAIL C07 no proof from a hash-only backend for present leaf {} (size {})", pos, hsize)),
+					}
+				}
+			}
+		}
 		// one rewindable view moved backwards and forwards
 		{
 			let mut rv = RewindablePMMR::<Elem, _>::new(&ba);
